@@ -106,8 +106,10 @@ class ExternalOptimizer(Optimizer):
                     if answer is None:
                         try:
                             answer = self._handle_request(comm, initial_values)
-                        except Exception as exc:  # noqa: BLE001
-                            # Store the exception, we first need to send the 'abort' signal:
+                        except BaseException as exc:  # noqa: BLE001
+                            # Store the exception (also KeyboardInterrupt and SystemExit
+                            # must not leave the optimizer process behind), we first
+                            # need to send the 'abort' signal:
                             exception = exc
                             answer = "abort"
 
